@@ -254,8 +254,27 @@ def np_funcs(mod) -> Dict[str, Any]:
             raise Unsupported("where of non-mask", call)
         return ([i for i, m in enumerate(v.vals) if m],)
 
+    def isclose(ev, call):
+        a, b = ev.ev(call.args[0]), ev.ev(call.args[1])
+        kw = {k.arg: ev.ev(k.value) for k in call.keywords}
+        rtol, atol = kw.get("rtol", 1e-05), kw.get("atol", 1e-08)
+
+        def one(x, y):
+            return abs(x - y) <= (atol + rtol * abs(y))
+        if isinstance(a, Vec) or isinstance(b, Vec):
+            n_ = len(a.vals) if isinstance(a, Vec) else len(b.vals)
+            av = a.vals if isinstance(a, Vec) else [a] * n_
+            bv = b.vals if isinstance(b, Vec) else [b] * n_
+            return Vec([one(x, y) for x, y in zip(av, bv)])
+        return one(a, b)
+
+    def argmin(ev, call):
+        v = ev.ev(call.args[0])
+        v = v.vals if isinstance(v, Vec) else v
+        return min(range(len(v)), key=lambda i: v[i])
+
     table = {"zeros": zeros, "array": array, "asarray": asarray, "vstack": vstack, "amin": amin, "min": amin,
-             "max": amax, "amax": amax, "where": where}
+             "max": amax, "amax": amax, "where": where, "isclose": isclose, "argmin": argmin}
     for local, target in mod.imports.items():
         if target.startswith("numpy."):
             t = target.split(".", 1)[1]
